@@ -7,6 +7,7 @@ import common as C
 import corpus
 import hist
 import progs as P
+import values as V
 
 COQ_FILES = ("L3_Sig/Program.v", "L3_Sig/Sig.v", "L3_Sig/RunSig.v", "L4_Eval/RunEval.v", "L0_Hash/CommutProofs.v", "Properties/C03.v")
 EXTRACTED = ("ConstHash", "ConstSig")
@@ -42,7 +43,7 @@ def plan(seed):
     if cands:
         m, v = rng.choice(cands)
         old = prog["modules"][m]["vars"][v]
-        new = rng.choice([x for x in P.VAR_VALUES if x != old])
+        new = rng.choice([x for x in P.VAR_VALUES if V.canon(x) != V.canon(old)])
         ev += [("act", {"a": "setvar", "mod": m, "name": v, "value": new}), ("act", call),
                ("act", {"a": "setvar", "mod": m, "name": v, "value": old})]
     datas = [(m, n) for (m, n) in P.reachable(prog, *prog["root"]) if P.find_func(prog, m, n).get("annot") and (m, n) != tuple(prog["root"])]
